@@ -101,7 +101,8 @@ def check_frame(case, res):
     res.fail("labels-not-increasing:" + rn, "label(n)=%r label(n+1)=%r" % (exp, g3))
   # adding k frames at once equals k single additions, on objects returned by from_frames; a time code obtained earlier for
   # the same frame count is not affected (each call stands for the frame count it was given, whatever happened to earlier results)
-  k = 2 + n % 3 if n % 1024 else 61 * nominal + n % 7
+  # (small steps; a step of a little more than a minute every 1024th frame count; one of exactly an hour of labels every 4096th + 7)
+  k = 3600 * nominal if n % 4096 == 7 else 2 + n % 3 if n % 1024 else 61 * nominal + n % 7
   want = ref.label(rate, n + k)
   a = SmpteTimeCode.from_frames(n, rate)
   a.add_frames(k)
@@ -110,9 +111,9 @@ def check_frame(case, res):
   b = SmpteTimeCode.from_frames(n, rate)
   if fields(b) != exp or b.to_frames() != n:
     res.fail("from_frames-after-add_frames:" + rn, "from_frames(%d) after add_frames on an earlier result: %r expected %r" % (n, fields(b), exp))
-  for _ in range(k):
+  for _ in range(k if k <= 5000 else 0):
     b.add_frames()
-  if fields(b) != want:
+  if k <= 5000 and fields(b) != want:
     res.fail("add_frames-k-vs-singles:" + rn, "label=%r: %d single additions -> %r, add_frames(%d) -> %r" % (exp, k, fields(b), k, want))
   res.nt_key = (exp, t)
 
